@@ -381,6 +381,23 @@ func orchestrate() int {
 			fmt.Printf("VIOLATION property=C20 replay=%s\n  clause=C20.race (free-running stage %s) %s\n", path, name, clip(tail(string(ob), 1500), 1500))
 		}
 	}
+	// thorough only: goroutines that really waited for more than a minute
+	if tier == "thorough" {
+		t1 := time.Now()
+		cmd := exec.Command(self, "-test.run=^TestLongWait$", "-test.timeout=10m", "-test.v")
+		cmd.Env = append(os.Environ(), "LIVESIM_MODE=longwait")
+		ob, err := cmd.CombinedOutput()
+		free["longwait"] = map[string]any{"what": "6 goroutines parked for 65 s of real time so that the runtime prints ', N minutes'; headers, count and the handler's page checked; not simulated", "wall_s": time.Since(t1).Seconds(), "ok": err == nil, "output": tail(string(ob), 300)}
+		if err != nil {
+			nviol++
+			rc = 1
+			path := filepath.Join(dir, "replays", fmt.Sprintf("C20-%d-longwait.json", seed))
+			rf := replayFile{Property: "C20", Clause: "C20.header", Message: tail(string(ob), 4000), Deterministic: false, Seed: seed, Note: "real-time stage (65 s); re-run with LIVESIM_MODE=longwait", ReplayCmd: "/verif/run.sh replay " + path}
+			b, _ := json.MarshalIndent(rf, "", " ")
+			os.WriteFile(path, b, 0o644)
+			fmt.Printf("VIOLATION property=C20 replay=%s\n  (long-wait stage) %s\n", path, clip(tail(string(ob), 1200), 1200))
+		}
+	}
 	// report one finding per clause, verified in a fresh process
 	sort.SliceStable(tot.Findings, func(i, j int) bool { return tot.Findings[i].Finding.Clause < tot.Findings[j].Finding.Clause })
 	seen := map[string]bool{}
